@@ -7,6 +7,7 @@ import (
 	"verif/ev"
 	"verif/mc"
 	"verif/model"
+	"verif/rx"
 	"verif/val"
 )
 
@@ -54,7 +55,7 @@ func C17(run *ev.Run, tier string) map[string]interface{} {
 	hcfg := drv.TableCfg{Hash: "h", HashT: "S", Billing: "PAY_PER_REQUEST"}
 	u1 := Universe{Keys: map[string][]val.Item{"tab": hk}}
 	inv := c17Invalid()
-	a01 := c01Alphabet(hk, thorough)
+	a01 := c01Alphabet(hk, thorough, false)
 	mk("single-item+invalid-inputs", newImpl, []drv.Op{{K: drv.KCreate, Table: "tab", Cfg: &hcfg}},
 		func(m *model.Model) []drv.Op { return append(a01(m), inv...) },
 		func(m *model.Model) []drv.Op { return ObserveOps(m, u1) }, cap)
@@ -125,9 +126,20 @@ func C17(run *ev.Run, tier string) map[string]interface{} {
 			puts = append(puts, drv.Op{K: drv.KPut, Tag: "Put(value tree)", Table: "tab", Item: val.Item{"h": val.S("k1"), "v": t}})
 		}
 		uv := Universe{Keys: map[string][]val.Item{"tab": {hKey("k1")}}}
+		// once a value tree is stored, the observation also makes the interpreter read the whole item (an
+		// update of an unrelated attribute, a copy of the value, a filter); the observation goes on after
+		// a read that differs by the recorded empty-container finding
+		follow := []drv.Op{
+			{K: drv.KScan, Tag: "After:Scan(attribute_exists(v))", Table: "tab", Filter: rx.Exists("v")},
+			{K: drv.KQuery, Tag: "After:Query(filter attribute_exists(v))", Table: "tab", KeyCond: rx.Eq("h", ":k"), Filter: rx.Exists("v"), Values: map[string]val.V{":k": val.S("k1")}},
+			{K: drv.KUpd, Tag: "After:Upd(SET oth)", Table: "tab", Key: hKey("k1"), Upd: rx.U(rx.Set("oth", rx.RV(":o"))), Values: map[string]val.V{":o": val.S("o")}},
+			{K: drv.KUpd, Tag: "After:Upd(SET w = v)", Table: "tab", Key: hKey("k1"), Upd: rx.U(rx.Set("w", rx.RP("v")))},
+			{K: drv.KDel, Tag: "After:Del(attribute_exists(v), ALL_OLD)", Table: "tab", Key: hKey("k1"), Cond: rx.Exists("v"), AllOld: true},
+		}
 		mk("value-trees", newImpl, []drv.Op{{K: drv.KCreate, Table: "tab", Cfg: &hcfg}}, func(m *model.Model) []drv.Op { return puts },
-			func(m *model.Model) []drv.Op { return ObserveOps(m, uv) }, len(puts)+10)
+			func(m *model.Model) []drv.Op { return append(ObserveOps(m, uv), follow...) }, len(puts)+10)
 		systems[len(systems)-1].NoExpand = func(op drv.Op, got drv.Resp) bool { return true }
+		systems[len(systems)-1].ContinueAfterKnown = true
 	}
 	// queries and pagination: every state of the C02 space, the reduced menu with Limits 1 and 2
 	for _, c := range queryConfigs(false) {
